@@ -79,6 +79,27 @@ def replQuote : Str → Str
 /-- the argument text of `regexp.MustCompile("…")` for `regex=` -/
 def emitRegex (p : Str) : Str := [cDQ] ++ replQuote (replBackslash p) ++ [cDQ]
 
+/-- `strconv.Quote` rune by rune, for the runes whose quoting is modelled: `"` `\`, the seven
+    control characters with a letter escape, printable ASCII.  `none`: not modelled (other control
+    characters and non-ASCII runes: `\x`, `\u` escapes or the rune itself, by `strconv.IsPrint`). -/
+def quoteRune (c : Nat) : Option Str :=
+  if c = cDQ then some [cBS, cDQ] else if c = cBS then some [cBS, cBS]
+  else if c = 0x07 then some [cBS, 0x61] else if c = 0x08 then some [cBS, 0x62]
+  else if c = 0x0C then some [cBS, 0x66] else if c = 0x0A then some [cBS, 0x6E]
+  else if c = 0x0D then some [cBS, 0x72] else if c = 0x09 then some [cBS, 0x74]
+  else if c = 0x0B then some [cBS, 0x76]
+  else if 0x20 ≤ c ∧ c < 0x7F then some [c] else none
+
+def quoteBody : Str → Option Str
+  | [] => some []
+  | c :: rest =>
+    match quoteRune c, quoteBody rest with
+    | some a, some b => some (a ++ b)
+    | _, _ => none
+
+/-- the argument text of `.Default(…)` after pending/C13-quote.diff: `strconv.Quote(value)` -/
+def emitDefaultFixed (p : Str) : Option Str := (quoteBody p).map fun b => [cDQ] ++ b ++ [cDQ]
+
 /-- value of a one-character escape of a Go interpreted string literal (`\'` is not allowed in
     strings; numeric escapes `\x \u \U \ooo` are not modelled: `none`) -/
 def escapeValue (d : Nat) : Option Nat :=
